@@ -138,9 +138,12 @@ func boundsC10(c *Ctx, tt *tokenTable, f *ssa.Function) {
 					}
 					delta := "?"
 					switch val := x.Val.(type) {
-					case *ssa.Phi:
-						delta = "+0"
+					case *ssa.Phi, *ssa.Extract:
+						delta = "+0" // the bound value itself
 					case *ssa.Call:
+						if callee := val.Call.StaticCallee(); callee != nil && callee.Pkg == f.Pkg {
+							delta = "+0" // the value as an in-package helper produced it
+						}
 						if callee := val.Call.StaticCallee(); callee != nil && callee.Name() == "Add" && len(val.Call.Args) == 2 {
 							if k, ok := val.Call.Args[1].(*ssa.Const); ok && k.Value != nil {
 								if d, ok := constant.Int64Val(constant.ToInt(k.Value)); ok {
@@ -170,6 +173,8 @@ func boundsC10(c *Ctx, tt *tokenTable, f *ssa.Function) {
 			c.OK("C10.bounds", key, f.Pos(), "error")
 		case !success:
 			c.Bad("C10.bounds", key, f.Pos(), "comparison is rejected")
+		case got.min == "?" || got.max == "?":
+			c.Unk("C10.bounds", key, f.Pos(), "a bound is stored from a value this rule does not recognise as the comparison value or value.Add(constant)")
 		case got != w:
 			c.Bad("C10.bounds", key, f.Pos(), fmt.Sprintf("sets Min=v%s Max=v%s; the property needs Min=v%s Max=v%s (strict bounds move by exactly one nanosecond)", got.min, got.max, w.min, w.max))
 		default:
